@@ -9,7 +9,7 @@ const VALUES: &[&str] = &["0", "-0", "0.0", "+0", "1", "75", "750", "-1.5", ".5"
 const RATIOS: &[f32] = &[750.0, 10.0, 1.0, 0.5, 0.00001, 1000000.0];
 const CONTEXTS: &[(&str, &str)] = &[("a{width:", "}"), ("a{width:calc(1px + ", ")}"), ("@media (min-width:", "){a{}}"), ("a{--x:", "}"), ("a{margin:0 ", "}"), (":host{top:", "}"),
     ("@page{margin:", "}"), ("@page :first{margin:0 ", "}"), ("@font-face{width:", "}"), ("@keyframes k{from{width:", "}}"), ("@page{@top-left{width:", "}}"), ("@starting-style{a{width:", "}}"), ("@layer l{a{width:", "}}"), ("a{width:var(--x,", ")}")];
-const BOUND: &str = "15 rpx values x 6 ratios x 14 contexts (declaration, calc, media query, custom property, second value, :host, @page, @font-face, @keyframes, margin box, @starting-style, @layer, var() fallback); 44 other numeric spellings (signed zeros, explicit plus, integers, decimals, exponents, percentages, dimensions incl. An+B and look-alike units) x 11 contexts, re-tokenised: kind, unit, explicit sign, integer-ness and value kept";
+const BOUND: &str = "15 rpx values x 6 ratios x 14 contexts (declaration, calc, media query, custom property, second value, :host, @page, @font-face, @keyframes, margin box, @starting-style, @layer, var() fallback); 44 other numeric spellings (signed zeros, explicit plus, integers, decimals, exponents, percentages, dimensions incl. An+B and look-alike units) x 11 contexts, re-tokenised: kind, unit, explicit sign, integer-ness and value kept; the JS binding constructor agrees with from_css for 10 ratios x 4 values x 3 option sets";
 
 fn transform(css: &str, ratio: f32) -> String {
     let t = StyleSheetTransformer::from_css("p.wxss", css, StyleSheetOptions { rpx_ratio: ratio, ..Default::default() });
@@ -99,9 +99,33 @@ fn check_other(value: &str, ctx: usize) -> Option<(String, String)> {
     }
     None
 }
+/// option plumbing of the other public entry point: the JS binding's constructor must hand its arguments to from_css unchanged
+fn check_bindings(value: &str, ratio: f32, prefix: Option<&str>, host: bool) -> Option<(String, String)> {
+    let css = format!(".a{{width:{}rpx}}:host{{top:{}rpx}}@media (min-width:{}rpx){{.b{{margin:0 {}rpx}}}}", value, value, value, value);
+    let t = StyleSheetTransformer::from_css("p.wxss", &css, StyleSheetOptions { class_prefix: prefix.map(|s| s.to_string()), rpx_ratio: ratio, convert_host: host, ..Default::default() });
+    let (a, b) = t.output_and_low_priority_output();
+    let (mut sa, mut sb) = (String::new(), String::new());
+    a.write_str(&mut sa).unwrap();
+    b.write_str(&mut sb).unwrap();
+    let j = glass_easel_stylesheet_compiler::js_bindings::StyleSheetTransformer::new("p.wxss", &css, prefix.map(|s| s.to_string()), ratio, host);
+    if j.get_content() != sa || j.get_low_priority_content() != sb {
+        return Some((format!("js_bindings::StyleSheetTransformer::new(.., {:?}, {}, {}) gives {:?} / {:?}", prefix, ratio, host, j.get_content(), j.get_low_priority_content()), format!("{:?} / {:?} (what from_css gives for the same options)", sa, sb)));
+    }
+    None
+}
 pub fn search() -> Outcome {
     std::panic::set_hook(Box::new(|_| {}));
     let mut n = 0u64;
+    for r in RATIOS.iter().chain([0.75f32, 0.125, 1500.0, 375.0].iter()) {
+        for v in ["1", "75", "-1.5", "0"] {
+            for (prefix, host) in [(None, false), (Some("p"), true), (Some(""), false)] {
+                n += 1;
+                if let Some((got, want)) = check_bindings(v, *r, prefix, host) {
+                    return Outcome { found: true, input: format!("bindings\t{}\t{}\t{}\t{}", v, r, prefix.unwrap_or("-"), host), observed: got, expected: want, evaluations: n, bound: BOUND.into() };
+                }
+            }
+        }
+    }
     for (ci, _) in OCTX.iter().enumerate() {
         for v in OTHER.iter().chain(if strict_long() { LONG.iter() } else { [].iter() }) {
             n += 1;
@@ -127,6 +151,13 @@ pub fn search() -> Outcome {
 }
 pub fn run(input: &str) -> Outcome {
     let p: Vec<&str> = input.split('\t').collect();
+    if p[0] == "bindings" {
+        let prefix = if p[3] == "-" { None } else { Some(p[3]) };
+        return match check_bindings(p[1], p[2].parse().unwrap(), prefix, p[4] == "true") {
+            Some((got, want)) => Outcome { found: true, input: input.into(), observed: got, expected: want, evaluations: 1, bound: "single input".into() },
+            None => Outcome { found: false, input: input.into(), observed: String::new(), expected: String::new(), evaluations: 1, bound: "single input".into() },
+        };
+    }
     if p[0] == "other" {
         return match check_other(p[1], p[2].parse().unwrap()) {
             Some((got, want)) => Outcome { found: true, input: input.into(), observed: got, expected: want, evaluations: 1, bound: "single input".into() },
